@@ -191,8 +191,16 @@ pub struct MassSpec {
     /// every k-th pair has an unexpired newest generation (0 = all newest generations expired)
     pub live_every: u8,
     pub ttl: bool,
-    /// extra crash points: (position scaled over the recovery trace, seed of the volatile subset)
+    /// extra crash points: (position scaled over the recovery trace, seed of the volatile subset;
+    /// seed bit 1 set: one of the un-synced writes is torn at 512-byte granularity - head block
+    /// only, everything but the head block, or a generated sector mask)
     pub cuts: Vec<(u16, u64)>,
+    /// blocks of the older / newest generation of every pair (0 = 1): multi-block extents are
+    /// retired by multi-block marker writes, which can be torn
+    #[serde(default)]
+    pub older_blocks: u8,
+    #[serde(default)]
+    pub newest_blocks: u8,
 }
 
 pub fn mass_strategy() -> BoxedStrategy<MassSpec> {
@@ -200,16 +208,26 @@ pub fn mass_strategy() -> BoxedStrategy<MassSpec> {
         5 => (380u16..760, Just(false)),
         1 => (900u16..1250, Just(true)),
     ];
-    (prop_oneof![Just(3u32), Just(3u32), Just(2u32)], shape, 0u8..5, any::<bool>(), prop_oneof![3 => Just(0u8), 2 => 2u8..9], proptest::bool::weighted(0.85), proptest::collection::vec((any::<u16>(), any::<u64>()), 0..5))
-        .prop_map(|(version, (pairs, adjacent), lead, newest_first, live_every, ttl, cuts)| MassSpec { version, pairs, lead, newest_first, adjacent, live_every, ttl, cuts })
+    let blocks = || prop_oneof![3 => Just(1u8), 2 => Just(2u8), 1 => Just(3u8)];
+    (prop_oneof![Just(3u32), Just(3u32), Just(2u32)], shape, 0u8..5, any::<bool>(), prop_oneof![3 => Just(0u8), 2 => 2u8..9], proptest::bool::weighted(0.85), proptest::collection::vec((any::<u16>(), any::<u64>()), 2..9), blocks(), blocks())
+        .prop_map(|(version, (pairs, adjacent), lead, newest_first, live_every, ttl, cuts, older_blocks, newest_blocks)| MassSpec { version, pairs, lead, newest_first, adjacent, live_every, ttl, cuts, older_blocks, newest_blocks })
         .boxed()
 }
 
 pub fn mass_image(spec: &MassSpec) -> Vec<u8> {
     use crate::layout::B;
     let version = spec.version;
-    let blocks = 16 + spec.lead as u64 * 3 + spec.pairs as u64 * 4 + 8;
+    let (ob, nb) = (spec.older_blocks.max(1) as u64, spec.newest_blocks.max(1) as u64);
+    let blocks = 16 + spec.lead as u64 * 3 + spec.pairs as u64 * (2 + ob + nb) + 8;
     let mut img = layout::fresh_image(version, blocks, false);
+    let sized = |tag: &[u8], n: u64| -> Vec<u8> {
+        let mut v = tag.to_vec();
+        if n > 1 {
+            v.resize((n as usize - 1) * B + 100, b'.');
+        }
+        v
+    };
+    let (newest_val, older_val) = (sized(b"newest-generation", nb), sized(b"older-generation-without-ttl", ob));
     let mut s = 16u64;
     let mut put = |img: &mut Vec<u8>, key: &[u8], val: &[u8], ts: u64, ex: u64| {
         let ext = layout::encode_record(version, s, key, val, ts, ex);
@@ -224,8 +242,8 @@ pub fn mass_image(spec: &MassSpec) -> Vec<u8> {
         let k = format!("pair-{i:04}").into_bytes();
         let live_winner = spec.live_every > 0 && i % spec.live_every as u64 == 0;
         let newest_expiry = if live_winner { 0 } else { NOW - 5_000_000_000 };
-        let newest = (b"newest-generation".as_slice(), 2000 + i, newest_expiry);
-        let older = (b"older-generation-without-ttl".as_slice(), 1000 + i, 0u64);
+        let newest = (newest_val.as_slice(), 2000 + i, newest_expiry);
+        let older = (older_val.as_slice(), 1000 + i, 0u64);
         let (first, second) = if spec.newest_first { (newest, older) } else { (older, newest) };
         put(&mut img, &k, first.0, first.1, first.2);
         if !spec.adjacent {
@@ -239,6 +257,9 @@ pub fn mass_image(spec: &MassSpec) -> Vec<u8> {
     }
     img
 }
+
+const TORN_LAST_TAIL: u64 = u64::MAX - 1;
+const TORN_LAST_HEAD: u64 = u64::MAX - 3;
 
 /// (images opened, retirement spanned more than one journal transaction)
 pub fn mass_judge(spec: &MassSpec, notes: &mut (u64, bool)) -> Result<(), String> {
@@ -258,6 +279,15 @@ pub fn mass_judge(spec: &MassSpec, notes: &mut (u64, bool)) -> Result<(), String
     // the retirement set was split
     notes.1 = journal_writes > 2;
     let mut points: Vec<(usize, Option<u64>)> = rec.iter().enumerate().filter(|(_, e)| matches!(e, crate::trace::Entry::FsyncEnd { .. })).map(|(p, _)| (p, None)).collect();
+    // systematically: right before every fsync, the most recent write still in flight and torn
+    // (seed 0x02 | mask kind << 4 | index = last, see below): everything but its head block, and
+    // its head block only
+    for (p, e) in rec.iter().enumerate() {
+        if matches!(e, crate::trace::Entry::FsyncBegin) && p > 0 {
+            points.push((p - 1, Some(TORN_LAST_TAIL)));
+            points.push((p - 1, Some(TORN_LAST_HEAD)));
+        }
+    }
     if !rec.is_empty() {
         for (pos, seed) in &spec.cuts {
             points.push(((*pos as usize * rec.len()) >> 16, Some(*seed | 1)));
@@ -268,10 +298,12 @@ pub fn mass_judge(spec: &MassSpec, notes: &mut (u64, bool)) -> Result<(), String
     for (p, subset_seed) in points {
         let (durable, volatile) = crate::trace::split_at(rec, p);
         let mut x = subset_seed.unwrap_or(0);
+        let systematic = matches!(subset_seed, Some(TORN_LAST_TAIL) | Some(TORN_LAST_HEAD));
         let subset: Vec<bool> = volatile
             .iter()
             .map(|_| match subset_seed {
                 None => true,
+                Some(_) if systematic => true,
                 Some(_) => {
                     x ^= x << 13;
                     x ^= x >> 7;
@@ -280,10 +312,25 @@ pub fn mass_judge(spec: &MassSpec, notes: &mut (u64, bool)) -> Result<(), String
                 }
             })
             .collect();
-        let nested = it.image(&durable, &volatile, &subset, None);
+        let torn = match subset_seed {
+            Some(TORN_LAST_TAIL) if !volatile.is_empty() => Some((volatile.len() - 1, !0xFFu64)),
+            Some(TORN_LAST_HEAD) if !volatile.is_empty() => Some((volatile.len() - 1, 0xFFu64)),
+            Some(seed) if seed & 2 != 0 && !volatile.is_empty() => {
+                let idx = ((seed >> 8) as usize) % volatile.len();
+                let mask = match (seed >> 4) & 3 {
+                    0 => !0xFFu64,          // everything but the head block
+                    1 => 0xFFu64,           // the head block only
+                    2 => 0xFF00_FF00_FF00_FF00u64,
+                    _ => (seed >> 16) | 1,
+                };
+                Some((idx, mask))
+            }
+            _ => None,
+        };
+        let nested = it.image(&durable, &volatile, &subset, torn);
         notes.0 += 1;
         let kept = subset.iter().filter(|b| **b).count();
-        let at = format!("crash inside recovery after trace entry {p} of {} ({} durable writes, {kept} of {} un-synced writes present)", rec.len(), durable.len(), volatile.len());
+        let at = format!("crash inside recovery after trace entry {p} of {} ({} durable writes, {kept} of {} un-synced writes present{})", rec.len(), durable.len(), volatile.len(), match torn { Some((i, m)) => format!(", un-synced write #{i} torn with sector mask {m:#x}"), None => String::new() });
         match crash::open_image(&nested, &cfg, NOW, false, false) {
             Err(e) => return Err(format!("[mass-restart-failed] {at}: restarted recovery fails: {e}")),
             Ok(o) => {
@@ -361,7 +408,7 @@ pub fn mass_campaign(property: &'static str, tier: Tier, seed: u64) -> (i32, ser
         "saved_regressions_replayed": regressions,
         "images": images.load(Ordering::Relaxed),
         "distinct_nontrivial": nt.lock().unwrap().len(),
-        "rule": "proptest-generated v2/v3 images holding 380-1250 keys with two generations each (newest first or last, adjacent or separated by live records, newest expired or live, 0-4 leading superseded generations shifting the boundary) so that recovery's retirement set exceeds one allocation-journal transaction (1024 coalesced extents); recovery #1 runs with the I/O trace on and must equal the codec's newest-wins/expiry decode; its own writes are then cut after every fsync and at generated positions with a generated subset of the un-synced writes present, and each restarted recovery must expose exactly the contents of the first successful one (no older generation of an expired key reappears, no live key is lost). Non-trivial: the retirement was split across more than one journal transaction.",
+        "rule": "proptest-generated v2/v3 images holding 380-1250 keys with two generations each (1-3 blocks per generation, newest first or last, adjacent or separated by live records, newest expired or live, 0-4 leading superseded generations shifting the boundary) so that recovery's retirement set exceeds one allocation-journal transaction (1024 coalesced extents); recovery #1 runs with the I/O trace on and must equal the codec's newest-wins/expiry decode; its own writes are then cut after every fsync, right before every fsync with the most recent write torn (head block only / everything but the head block), and at generated positions with a generated subset of the un-synced writes present and optionally one of them torn at 512-byte granularity (head block only / everything but the head block / generated mask), and each restarted recovery must expose exactly the contents of the first successful one (no older generation of an expired key reappears, no live key is lost). Non-trivial: the retirement was split across more than one journal transaction.",
         "sample": sample.lock().unwrap().clone(),
         "failure": failure,
     });
